@@ -3,7 +3,8 @@ L6 — `Selector._setSelectorText`: the token-combining pre-pass and the
 `expected × context-stack` state machine, incl. namespace resolution and specificity.
 
 `expected` is kept as the *string* the code uses and tested by substring search, exactly as
-`'class' in expected` does in Python.
+`'class' in expected` does in Python.  Token / item types and contexts are enumerations (the
+driver prints the code's names).
 -/
 import CssVerif.Model.Tokenizer
 namespace CssVerif.Selector
@@ -20,7 +21,36 @@ def isInfix (a b : Text) : Bool :=
 def startsWith (s p : Text) : Bool := p.isPrefixOf s
 def endsWith (s p : Text) : Bool := p.reverse.isPrefixOf s.reverse
 
-abbrev T2 := String × Text       -- (type, value)
+/-- token types that have a production in the selector parser (after the pre-pass) -/
+inductive TT
+  | comment | s | universal | nsprefix | pclass | pelem | number | dimension
+  | prefixmatch | suffixmatch | substringmatch | dashmatch | includes
+  | string | ident | cls | hash | negation | atkw | char | func | other
+  deriving DecidableEq, Repr, Inhabited
+
+def TT.ofString : String → TT
+  | "COMMENT" => .comment | "S" => .s | "NUMBER" => .number | "DIMENSION" => .dimension
+  | "PREFIXMATCH" => .prefixmatch | "SUFFIXMATCH" => .suffixmatch | "SUBSTRINGMATCH" => .substringmatch
+  | "DASHMATCH" => .dashmatch | "INCLUDES" => .includes | "STRING" => .string | "IDENT" => .ident
+  | "HASH" => .hash | "ATKEYWORD" => .atkw | "CHAR" => .char | "FUNCTION" => .func
+  | _ => .other
+
+abbrev T2 := TT × Text       -- (type, value)
+
+/-- item types of the selector's sequence -/
+inductive IT
+  | comment | s | descendant | universal | typesel | negtypesel | attrsel | attrvalue | attrstart | attrend
+  | equals | prefixmatch | suffixmatch | substringmatch | dashmatch | includes
+  | string | ident | number | dimension | cls | id | pclass | pelem
+  | negstart | negend | funcend | plus | minus | child | adjacent | following | keyError
+  deriving DecidableEq, Repr, Inhabited
+
+inductive Ctx | root | attrib | negation | pclass | pelem
+  deriving DecidableEq, Repr, Inhabited
+
+def Ctx.isPseudo : Ctx → Bool
+  | .pclass | .pelem => true
+  | _ => false
 
 /-! ### pre-pass -/
 
@@ -30,24 +60,24 @@ def prepassStep (T : Tables) (acc : List T2) (t : T2) : List T2 :=
   let val := t.2
   match acc with
   | [] =>
-    if val == str "*" then [("universal", val)]
-    else if val == str "|" then [("namespace_prefix", val)]
+    if val == str "*" then [(.universal, val)]
+    else if val == str "|" then [(.nsprefix, val)]
     else [t]
   | last :: rest =>
     if val == str ":" && last.2 == str ":" then (typ, str "::") :: rest
-    else if typ == "IDENT" && last.2 == str "." then ("class", str "." ++ val) :: rest
-    else if typ == "IDENT" && startsWith last.2 (str ":") && !endsWith last.2 (str "(") then
-      ((if startsWith last.2 (str "::") then "pseudo-element" else "pseudo-class"), last.2 ++ val) :: rest
-    else if typ == "FUNCTION" && normalize T val == str "not(" && last.2 == str ":" then
-      ("negation", str ":" ++ val) :: rest
-    else if typ == "FUNCTION" && startsWith last.2 (str ":") then
-      ((if startsWith last.2 (str "::") then "pseudo-element" else "pseudo-class"), last.2 ++ val) :: rest
-    else if val == str "*" && last.1 == "namespace_prefix" && endsWith last.2 (str "|") then
-      ("universal", last.2 ++ val) :: rest
-    else if val == str "*" then ("universal", val) :: acc
-    else if val == str "|" && (last.1 == "IDENT" || last.1 == "universal") && !(last.2.contains 124) then
-      ("namespace_prefix", last.2 ++ str "|") :: rest
-    else if val == str "|" then ("namespace_prefix", val) :: acc
+    else if typ == .ident && last.2 == str "." then (.cls, str "." ++ val) :: rest
+    else if typ == .ident && startsWith last.2 (str ":") && !endsWith last.2 (str "(") then
+      ((if startsWith last.2 (str "::") then TT.pelem else TT.pclass), last.2 ++ val) :: rest
+    else if typ == .func && normalize T val == str "not(" && last.2 == str ":" then
+      (.negation, str ":" ++ val) :: rest
+    else if typ == .func && startsWith last.2 (str ":") then
+      ((if startsWith last.2 (str "::") then TT.pelem else TT.pclass), last.2 ++ val) :: rest
+    else if val == str "*" && last.1 == .nsprefix && endsWith last.2 (str "|") then
+      (.universal, last.2 ++ val) :: rest
+    else if val == str "*" then (.universal, val) :: acc
+    else if val == str "|" && (last.1 == .ident || last.1 == .universal) && !(last.2.contains 124) then
+      (.nsprefix, last.2 ++ str "|") :: rest
+    else if val == str "|" then (.nsprefix, val) :: acc
     else t :: acc
 
 def prepass (T : Tables) (ts : List T2) : List T2 := (ts.foldl (prepassStep T) []).reverse
@@ -62,21 +92,20 @@ inductive Ns
   deriving DecidableEq, Repr
 
 structure Item where
-  typ : String
+  typ : IT
   val : Text
   ns : Option Ns        -- `some` for (namespaceURI, name) tuples
   deriving DecidableEq, Repr
 
 structure St where
   expected : Text
-  context : List String        -- head = innermost; bottom = ""
+  context : List Ctx           -- head = innermost; bottom = root
   pfx : Option Text            -- saved `_PREFIX`
   b : Nat
   c : Nat
   d : Nat
   items : List Item            -- reversed
   wellformed : Bool
-  nsErr : Bool                 -- an undeclared prefix was met (NamespaceErr)
   firstErr : String            -- class of the first error logged ("" = none)
   deriving Repr
 
@@ -95,32 +124,56 @@ def expression : Text := expressionStart ++ str " )"
 def combinator : Text := str " combinator"
 
 def init : St :=
-  { expected := sss, context := [""], pfx := none, b := 0, c := 0, d := 0, items := [], wellformed := true,
-    nsErr := false, firstErr := "" }
+  { expected := sss, context := [.root], pfx := none, b := 0, c := 0, d := 0, items := [], wellformed := true,
+    firstErr := "" }
 
-def ctx (st : St) : String := st.context.head?.getD ""
+def ctx (st : St) : Ctx := st.context.head?.getD .root
 
 abbrev NsMap := List (Text × Text)     -- prefix → URI ('' = default namespace)
 
 def nsGet (m : NsMap) (p : Text) : Option Text := (m.find? (·.1 == p)).map (·.2)
 
+def failWith (st : St) (e : String) : St :=
+  { st with wellformed := false, firstErr := (if st.firstErr == "" then e else st.firstErr) }
+
+def fail (st : St) : St := failWith st "SyntaxErr"
+
+/-- the `_PREFIX` pseudo-append: remember the prefix for the next name -/
+def savePrefix (st : St) (val : Text) : St := { st with pfx := some (val.take (val.length - 1)) }
+
+def IT.isSelector : IT → Bool
+  | .typesel | .negtypesel | .attrsel | .universal => true
+  | _ => false
+
+/-- specificity bookkeeping of `append` -/
+def count (st : St) (typ : IT) (name : Text) (isTuple : Bool) : St :=
+  let c := ctx st
+  if c == .root || c == .negation then
+    if typ == .id then { st with b := st.b + 1 }
+    else if (!isTuple && name == str "[") || typ == .cls || typ == .pclass then
+      (if typ != .pclass || name != str ":where(" then { st with c := st.c + 1 } else st)
+    else if typ == .typesel || typ == .negtypesel || typ == .pelem then { st with d := st.d + 1 }
+    else st
+  else st
+
+/-- `namespaces.get('', None)` -/
+def defaultNs (m : NsMap) : Ns := match nsGet m [] with | some u => .uri u | none => .none
+
 /-- `append(seq, val, typ)` -/
-def append (m : NsMap) (st : St) (val : Text) (typ : String) : St :=
-  if typ == "_PREFIX" then { st with pfx := some (val.take (val.length - 1)) } else
+def append (m : NsMap) (st : St) (val : Text) (typ : IT) : St :=
   -- prefix and bare name
   let pv : Option Text × Text × St :=
     match st.pfx with
     | some p => (some p, val, { st with pfx := none })
     | none =>
-      if typ == "universal" && val.contains 124 then
+      if typ == .universal && val.contains 124 then
         let i := (val.findIdx? (· == 124)).getD 0
         (some (val.take i), val.drop (i + 1), st)
       else (none, val, st)
   let pfx0 := pv.1
   let name := pv.2.1
   let st := pv.2.2
-  let isSel := typ.endsWith "-selector" || typ == "universal"
-  let namespaced := isSel && !(typ == "attribute-selector" && (pfx0.isNone || pfx0 == some []))
+  let namespaced := typ.isSelector && !(typ == .attrsel && (pfx0.isNone || pfx0 == some []))
   -- namespace resolution: `none` result = undeclared prefix
   let res : Option (Option Ns) :=
     if namespaced then
@@ -131,153 +184,144 @@ def append (m : NsMap) (st : St) (val : Text) (typ : String) : St :=
         else match nsGet m p with
           | some u => some (some (.uri u))
           | none => none
-      | none => some (some (match nsGet m [] with | some u => .uri u | none => .none))
+      | none => some (some (defaultNs m))
     else some none
   match res with
-  | none =>
-    { st with wellformed := false, nsErr := true,
-              firstErr := (if st.firstErr == "" then "NamespaceErr" else st.firstErr) }
+  | none => failWith st "NamespaceErr"
   | some ns =>
-    let c := ctx st
-    let counts := c == "" || c == "negation"
-    let st :=
-      if counts then
-        if typ == "id" then { st with b := st.b + 1 }
-        else if (ns.isNone && name == str "[") || typ == "class" || typ == "pseudo-class" then
-          (if typ != "pseudo-class" || name != str ":where(" then { st with c := st.c + 1 } else st)
-        else if typ == "type-selector" || typ == "negation-type-selector" || typ == "pseudo-element" then
-          { st with d := st.d + 1 }
-        else st
-      else st
+    let st := count st typ name ns.isSome
     { st with items := ⟨typ, name, ns⟩ :: st.items }
-
-def fail (st : St) : St :=
-  { st with wellformed := false, firstErr := (if st.firstErr == "" then "SyntaxErr" else st.firstErr) }
-
-def failWith (st : St) (e : String) : St :=
-  { st with wellformed := false, firstErr := (if st.firstErr == "" then e else st.firstErr) }
-
-def lowerName (T : Tables) (v : Text) : Text := normalize T v
 
 def legacyPseudoElements : List Text := [str ":first-line", str ":first-letter", str ":before", str ":after"]
 
+def matchItem : TT → IT
+  | .prefixmatch => .prefixmatch | .suffixmatch => .suffixmatch | .substringmatch => .substringmatch
+  | .dashmatch => .dashmatch | _ => .includes
+
+def ret (st : St) (e : Text) : St := { st with expected := e }
+
+def isWsText (t : Text) : Bool := t.all (fun c => c == 32 || c == 9 || c == 10 || c == 13 || c == 12)
+
+/-- the CHAR production -/
+def stepChar (m : NsMap) (st : St) (val : Text) : St :=
+  let c := ctx st
+  let exp := st.expected
+  let has (s : String) : Bool := isInfix (str s) exp
+  if val == str "]" && c == .attrib && has "]" then
+    let st := append m st val .attrend
+    let st := { st with context := st.context.drop 1 }
+    if ctx st == .negation then ret st negationEnd else ret st (sss2 ++ combinator)
+  else if val == str "=" && c == .attrib && has "combinator" then ret (append m st val .equals) attvalue
+  else if val == str ")" && c == .negation && has ")" then
+    let st := append m st val .negend
+    ret { st with context := st.context.drop 1 } (sss ++ combinator)
+  else if isInfix val (str "+-") && c.isPseudo then
+    let nm := if val == str "+" then IT.plus else if val == str "-" then IT.minus else IT.keyError
+    match st.items with
+    | last :: rest =>
+      if val == str "+" && last.val == str " " && last.ns.isNone then
+        ret { st with items := ⟨nm, val, none⟩ :: rest } expression
+      else ret (append m st val nm) expression
+    | [] => ret (append m st val nm) expression
+  else if val == str ")" && c.isPseudo && exp == expression then
+    let st := append m st val .funcend
+    let st := { st with context := st.context.drop 1 }
+    if ctx st == .negation then ret st negationEnd
+    else if c == .pelem then ret st combinator else ret st (sss ++ combinator)
+  else if val == str "[" && has "attrib" then
+    let st := append m st val .attrstart
+    ret { st with context := .attrib :: st.context } attname
+  else if isInfix val (str "+>~") && has "combinator" then
+    let nm := if val == str ">" then IT.child else if val == str "+" then IT.adjacent
+      else if val == str "~" then IT.following else IT.keyError
+    match st.items with
+    | last :: rest =>
+      if last.val == str " " && last.ns.isNone then ret { st with items := ⟨nm, val, none⟩ :: rest } sss
+      else ret (append m st val nm) sss
+    | [] => ret (append m st val nm) sss
+  else if val == str "," then failWith st "InvalidModificationErr"
+  else fail st
+
 /-- one token through its production -/
 def step (T : Tables) (m : NsMap) (st : St) (t : T2) : St :=
-  let typ := t.1
   let val := t.2
   let c := ctx st
   let exp := st.expected
   let has (s : String) : Bool := isInfix (str s) exp
-  let ret (st : St) (e : Text) : St := { st with expected := e }
-  if typ == "COMMENT" then append m st val "COMMENT"
-  else if typ == "S" then
-    if c.startsWith "pseudo-" then
+  match t.1 with
+  | .comment => append m st val .comment
+  | .s =>
+    if c.isPseudo then
       match st.items with
-      | last :: _ => if !(isInfix last.val (str "+-")) || last.ns.isSome then append m st (str " ") "S" else st
+      | last :: _ => if !(isInfix last.val (str "+-")) || last.ns.isSome then append m st (str " ") .s else st
       | [] => st
-    else if c != "attrib" && has "combinator" then ret (append m st (str " ") "descendant") (sss ++ combinator)
+    else if c != .attrib && has "combinator" then ret (append m st (str " ") .descendant) (sss ++ combinator)
     else st
-  else if typ == "universal" then
+  | .universal =>
     if has "universal" then
-      let st := append m st val "universal"
-      if c == "negation" then ret st negationEnd else ret st (sss2 ++ combinator)
+      let st := append m st val .universal
+      if c == .negation then ret st negationEnd else ret st (sss2 ++ combinator)
     else fail st
-  else if typ == "namespace_prefix" then
-    if c == "attrib" && has "prefix" then ret (append m st val "_PREFIX") attname2
-    else if has "type_selector" then ret (append m st val "_PREFIX") elementName
+  | .nsprefix =>
+    if c == .attrib && has "prefix" then ret (savePrefix st val) attname2
+    else if has "type_selector" then ret (savePrefix st val) elementName
     else fail st
-  else if typ == "pseudo-class" || typ == "pseudo-element" then
-    let v := lowerName T val
+  | .pclass | .pelem =>
+    let v := normalize T val
     if has "pseudo" then
-      let typ' := if legacyPseudoElements.contains v then "pseudo-element" else typ
-      let st := append m st v typ'
-      if endsWith v (str "(") then ret { st with context := typ' :: st.context } expressionStart
-      else if c == "negation" then ret st negationEnd
-      else if typ' == "pseudo-element" then ret st combinator
+      let isElem := legacyPseudoElements.contains v || t.1 == .pelem
+      let st := append m st v (if isElem then .pelem else .pclass)
+      if endsWith v (str "(") then ret { st with context := (if isElem then Ctx.pelem else Ctx.pclass) :: st.context } expressionStart
+      else if c == .negation then ret st negationEnd
+      else if isElem then ret st combinator
       else ret st (sss2 ++ combinator)
     else fail st
-  else if typ == "NUMBER" || typ == "DIMENSION" then
-    if c.startsWith "pseudo-" then ret (append m st val typ) expression else fail st
-  else if typ == "PREFIXMATCH" || typ == "SUFFIXMATCH" || typ == "SUBSTRINGMATCH" || typ == "DASHMATCH" ||
-      typ == "INCLUDES" then
-    if c == "attrib" && has "combinator" then ret (append m st val typ.toLower) attvalue else fail st
-  else if typ == "STRING" then
-    -- `_stringtokenvalue`: quotes removed, escaped quote resolved
+  | .number => if c.isPseudo then ret (append m st val .number) expression else fail st
+  | .dimension => if c.isPseudo then ret (append m st val .dimension) expression else fail st
+  | .prefixmatch | .suffixmatch | .substringmatch | .dashmatch | .includes =>
+    if c == .attrib && has "combinator" then ret (append m st val (matchItem t.1)) attvalue else fail st
+  | .string =>
     -- `_stringtokenvalue`: the surrounding quotes are removed (escaped quotes inside are not generated)
     let sv := (val.drop 1).take (val.length - 2)
-    if c == "attrib" && has "value" then ret (append m st sv typ) attend
-    else if c.startsWith "pseudo-" then ret (append m st sv typ) expression
+    if c == .attrib && has "value" then ret (append m st sv .string) attend
+    else if c.isPseudo then ret (append m st sv .string) expression
     else fail st
-  else if typ == "IDENT" then
-    if c == "attrib" && has "attribute" then ret (append m st val "attribute-selector") attcombinator
-    else if c == "attrib" && has "value" then ret (append m st val "attribute-value") attend
-    else if c == "negation" then ret (append m st val "negation-type-selector") negationEnd
-    else if c.startsWith "pseudo-" then ret (append m st val typ) expression
-    else if has "type_selector" || exp == elementName then ret (append m st val "type-selector") (sss2 ++ combinator)
+  | .ident =>
+    if c == .attrib && has "attribute" then ret (append m st val .attrsel) attcombinator
+    else if c == .attrib && has "value" then ret (append m st val .attrvalue) attend
+    else if c == .negation then ret (append m st val .negtypesel) negationEnd
+    else if c.isPseudo then ret (append m st val .ident) expression
+    else if has "type_selector" || exp == elementName then ret (append m st val .typesel) (sss2 ++ combinator)
     else fail st
-  else if typ == "class" then
+  | .cls =>
     if has "class" then
-      let st := append m st val "class"
-      if c == "negation" then ret st negationEnd else ret st (sss2 ++ combinator)
+      let st := append m st val .cls
+      if c == .negation then ret st negationEnd else ret st (sss2 ++ combinator)
     else fail st
-  else if typ == "HASH" then
+  | .hash =>
     if has "HASH" then
-      let st := append m st val "id"
-      if c == "negation" then ret st negationEnd else ret st (sss2 ++ combinator)
+      let st := append m st val .id
+      if c == .negation then ret st negationEnd else ret st (sss2 ++ combinator)
     else fail st
-  else if typ == "negation" then
+  | .negation =>
     if has "negation" then
-      ret (append m { st with context := "negation" :: st.context } (lowerName T val) "negation-start") negationArg
+      ret (append m { st with context := .negation :: st.context } (normalize T val) .negstart) negationArg
     else fail st
-  else if typ == "ATKEYWORD" then fail st
-  else if typ == "CHAR" then
-    if val == str "]" && c == "attrib" && has "]" then
-      let st := append m st val "attribute-end"
-      let st := { st with context := st.context.drop 1 }
-      if ctx st == "negation" then ret st negationEnd else ret st (sss2 ++ combinator)
-    else if val == str "=" && c == "attrib" && has "combinator" then ret (append m st val "equals") attvalue
-    else if val == str ")" && c == "negation" && has ")" then
-      let st := append m st val "negation-end"
-      ret { st with context := st.context.drop 1 } (sss ++ combinator)
-    else if isInfix val (str "+-") && c.startsWith "pseudo-" then
-      let nm := if val == str "+" then "plus" else if val == str "-" then "minus" else "KeyError"
-      match st.items with
-      | last :: rest =>
-        if val == str "+" && last.val == str " " && last.ns.isNone then
-          ret { st with items := ⟨nm, val, none⟩ :: rest } expression
-        else ret (append m st val nm) expression
-      | [] => ret (append m st val nm) expression
-    else if val == str ")" && c.startsWith "pseudo-" && exp == expression then
-      let st := append m st val "function-end"
-      let st := { st with context := st.context.drop 1 }
-      if ctx st == "negation" then ret st negationEnd
-      else if c == "pseudo-element" then ret st combinator else ret st (sss ++ combinator)
-    else if val == str "[" && has "attrib" then
-      let st := append m st val "attribute-start"
-      ret { st with context := "attrib" :: st.context } attname
-    else if isInfix val (str "+>~") && has "combinator" then
-      let nm := if val == str ">" then "child" else if val == str "+" then "adjacent-sibling"
-        else if val == str "~" then "following-sibling" else "KeyError"
-      match st.items with
-      | last :: rest =>
-        if last.val == str " " && last.ns.isNone then ret { st with items := ⟨nm, val, none⟩ :: rest } sss
-        else ret (append m st val nm) sss
-      | [] => ret (append m st val nm) sss
-    else if val == str "," then failWith st "InvalidModificationErr"
-    else fail st
-  else fail st       -- no production for this token type
+  | .atkw => fail st
+  | .char => stepChar m st val
+  | .func | .other => fail st       -- no production for this token type
 
 structure Result where
   wellformed : Bool
-  nsErr : Bool
   firstErr : String
   spec : Nat × Nat × Nat
   items : List Item
   deriving Repr
 
-/-- the whole of `_setSelectorText` after tokenizing -/
-def parse (T : Tables) (m : NsMap) (toks : List T2) : Result :=
-  let st := (prepass T toks).foldl (step T m) init
+def run (T : Tables) (m : NsMap) (toks : List T2) : St := toks.foldl (step T m) init
+
+/-- post-conditions of `_setSelectorText` -/
+def finish (st : St) : Result :=
   let items0 := st.items
   let wf := st.wellformed
     && !(st.context.length > 1 || items0.isEmpty)
@@ -285,10 +329,13 @@ def parse (T : Tables) (m : NsMap) (toks : List T2) : Result :=
     && !(st.expected == sss && !items0.isEmpty)
   -- a trailing whitespace-only item is dropped
   let items1 := match items0 with
-    | last :: rest => if last.ns.isNone && last.val.all (fun c => c == 32 || c == 9 || c == 10 || c == 13 || c == 12)
-        && !(last.typ == "COMMENT") then rest else items0
+    | last :: rest => if last.ns.isNone && isWsText last.val && !(last.typ == IT.comment) then rest else items0
     | [] => []
-  { wellformed := wf, nsErr := st.nsErr,
-    firstErr := (if st.firstErr != "" then st.firstErr else if wf then "" else "SyntaxErr"), spec := (st.b, st.c, st.d), items := items1.reverse }
+  { wellformed := wf,
+    firstErr := (if st.firstErr != "" then st.firstErr else if wf then "" else "SyntaxErr"),
+    spec := (st.b, st.c, st.d), items := items1.reverse }
+
+/-- the whole of `_setSelectorText` after tokenizing -/
+def parse (T : Tables) (m : NsMap) (toks : List T2) : Result := finish (run T m (prepass T toks))
 
 end CssVerif.Selector
